@@ -142,6 +142,8 @@ fn chain_json(c: &[Elem]) -> String {
 pub fn run(seed: u64, n: usize, out: &str, c16: bool) {
     let mut r = Rng::new(seed ^ if c16 { 0xC16 } else { 0xC06 });
     let mut sink = Sink::new(out, "C06", 200);
+    #[cfg(feature = "float")]
+    { sink.runner = "C06f32".to_string(); }
     // corpus first: the composition that exposed the stored-inverse order defect
     let mut corpus: Vec<Vec<Elem>> = vec![
         vec![Elem::Tr(1.0, 0.0, 0.0), Elem::Rz(90.0)],
